@@ -141,8 +141,51 @@ NEGATIVE = [
 
 # generic functions instantiated from another module than the one that declares them
 MODULE_PROGRAMS = [
+    ("aliases-of-the-instantiating-module", {
+        "lib.ddp": 'Die öffentliche generische Funktion zweimal mit dem Parameter x vom Typ T, gibt nichts zurück, macht:\n\tMelde x.\n\tMelde x.\nUnd kann so benutzt werden:\n\t"Verarbeite <x> doppelt"\n',
+        "main.ddp": 'Binde "Duden/Ausgabe" ein.\nBinde "lib" ein.\n\nDie Funktion melde_zahl mit dem Parameter z vom Typ Zahl, gibt nichts zurück, macht:\n\tSchreibe "Meldung: ".\n\tSchreibe z auf eine Zeile.\n'
+                    'Und kann so benutzt werden:\n\t"Melde <z>"\n\nDie Funktion melde_text mit dem Parameter z vom Typ Text, gibt nichts zurück, macht:\n\tSchreibe "Text: ".\n\tSchreibe z auf eine Zeile.\n'
+                    'Und kann so benutzt werden:\n\t"Melde <z>"\n\nMelde 7.\nVerarbeite 21 doppelt.\nVerarbeite "t" doppelt.\n'},
+     "Meldung: 7\nMeldung: 21\nMeldung: 21\nText: t\nText: t\n"),
     ("operator-overloads-of-the-declaring-module", {"lib.ddp": 'Binde "Duden/Ausgabe" ein.\nWir nennen die öffentliche Kombination aus\n\tder öffentlichen Zahl x mit Standardwert 0,\neinen Vek, und erstellen sie so:\n\t"Vek <x>"\n\nDie öffentliche Funktion vekplus mit den Parametern a und b vom Typ Vek und Vek, gibt einen Vek zurück, macht:\n\tGib Vek ((x von a) plus (x von b)) zurück.\nUnd überlädt den "plus" Operator.\n\nDie öffentliche generische Funktion Summiere mit den Parametern a und b vom Typ T und T, gibt ein T zurück, macht:\n\tGib a plus b zurück.\nUnd kann so benutzt werden:\n\t"summiere <a> <b>"\n\nDie öffentliche Funktion SummiereVek mit den Parametern a und b vom Typ Vek und Vek, gibt einen Vek zurück, macht:\n\tGib a plus b zurück.\nUnd kann so benutzt werden:\n\t"summierevek <a> <b>"\n', "main.ddp": 'Binde "Duden/Ausgabe" ein.\nBinde Vek, Summiere und SummiereVek aus "lib" ein.\n\nDie Funktion vekmal mit den Parametern a und b vom Typ Vek und Vek, gibt einen Vek zurück, macht:\n\tGib Vek ((x von a) mal (x von b)) zurück.\nUnd überlädt den "plus" Operator.\n\nDer Vek v ist Vek 3.\nDer Vek w ist Vek 4.\nSchreibe (x von (summierevek v w)) auf eine Zeile.\nSchreibe (x von (summiere v w)) auf eine Zeile.\nSchreibe (x von (v plus w)) auf eine Zeile.\nSchreibe (summiere 3 4) auf eine Zeile.\n'}, "7\n7\n12\n7\n"),
 ]
+
+
+def instantiation_matrix(rng, quick):
+    """one generic function instantiated with many types in one module, in varying orders: every call has to behave like
+    its own specialisation (the body calls an overloaded function, so a wrong instantiation prints a wrong tag)"""
+    H = ('Binde "Duden/Ausgabe" ein.\nWir definieren eine Hausnummer als eine Zahl.\nWir definieren eine Postleitzahl als eine Zahl.\n'
+         'Wir definieren einen Namen als einen Text.\nWir nennen eine Zahl auch eine Strecke.\n'
+         'Wir nennen die Kombination aus\n\tder Zahl px mit Standardwert 0,\neinen Punkt, und erstellen sie so:\n\t"Punkt <px>"\n\n'
+         'Wir nennen die Kombination aus\n\tder Zahl kx mit Standardwert 0,\neinen Kreis, und erstellen sie so:\n\t"Kreis <kx>"\n\n')
+    pool = [("Zahl", "5", "Zahl"), ("Kommazahl", "2,5", "Kommazahl"), ("Text", '"t"', "Text"), ("Buchstabe", "'b'", "Buchstabe"),
+            ("Wahrheitswert", "wahr", "Wahrheitswert"), ("Byte", "(7 als Byte)", "Byte"), ("Zahlen Liste", "(eine Liste, die aus 1, 2 besteht)", "Zahlen Liste"),
+            ("Text Liste", '(eine Liste, die aus "a" besteht)', "Text Liste"), ("Hausnummer", "(22 als Hausnummer)", "Hausnummer"),
+            ("Postleitzahl", "(10115 als Postleitzahl)", "Postleitzahl"), ("Namen", '("n" als Namen)', "Namen"), ("Strecke", "3", "Zahl"),
+            ("Punkt", "(Punkt 1)", "Punkt"), ("Kreis", "(Kreis 2)", "Kreis")]
+    decls = ""
+    for i, (t, _, tag) in enumerate(pool):
+        if t == "Strecke":
+            continue       # an alias of Zahl is Zahl: it has no overload of its own
+        decls += ('Die Funktion art%d mit dem Parameter x vom Typ %s, gibt nichts zurück, macht:\n\tSchreibe "%s" auf eine Zeile.\nUnd kann so benutzt werden:\n\t"art <x>"\n\n' % (i, t, tag))
+    decls += ('Die generische Funktion kennung mit dem Parameter a vom Typ T, gibt nichts zurück, macht:\n\tart a.\nUnd kann so benutzt werden:\n\t"kennung <a>"\n\n'
+              'Die generische Funktion doppelt mit den Parametern a und b vom Typ T und R, gibt nichts zurück, macht:\n\tart a.\n\tart b.\nUnd kann so benutzt werden:\n\t"doppelt <a> <b>"\n\n')
+    vars_ = "".join("%s %s var%d ist %s.\n" % ({"Zahl": "Die", "Kommazahl": "Die", "Zahlen Liste": "Die", "Text Liste": "Die", "Hausnummer": "Die", "Postleitzahl": "Die",
+                                                  "Strecke": "Die"}.get(t, "Der"), t, i, e.strip("()") if t in ("Zahlen Liste", "Text Liste") else e) for i, (t, e, _) in enumerate(pool))
+    orders = [list(range(len(pool))), list(reversed(range(len(pool))))]
+    for _ in range(2 if quick else 30):
+        orders.append(rng.shuffle(list(range(len(pool)))))
+    out = []
+    for oi, order in enumerate(orders):
+        body, exp = "", ""
+        for i in order:
+            body += "kennung var%d.\n" % i
+            exp += pool[i][2] + "\n"
+        for i, j in zip(order, order[1:]):
+            body += "doppelt var%d var%d.\n" % (i, j)
+            exp += pool[i][2] + "\n" + pool[j][2] + "\n"
+        out.append(("instantiations:order-%d" % oi, H + decls + vars_ + body, exp))
+    return out
 
 
 def check(res, tier):
@@ -216,6 +259,19 @@ def check(res, tier):
         if r.cls != "compile-rejected":
             res.violation("kombi-negative:" + name, "ill-typed use of generics (%s) was not rejected with a diagnostic: %s" % (name, r.cls),
                           {"program": KOMBI + body, "expected": "rejected with a diagnostic", "implementation": r.as_dict()})
+    inst = instantiation_matrix(Rng(sd + 77), tier == "quick")
+    iouts = pipeline.farm(ddp, [({"main.ddp": src}, c, {}) for _, src, _ in inst for c in (cfg, pipeline.Config(opt=2))])
+    for k, (name, src, want) in enumerate(inst):
+        for r in iouts[2 * k:2 * k + 2]:
+            res.evaluations += 1
+            res.nontrivial(name)
+            if r.cls != "ok" or r.stdout != want:
+                got, exp_ = r.stdout.split("\n"), want.split("\n")
+                first = next((i for i, (a, b) in enumerate(zip(got + [""], exp_ + [""])) if a != b), -1)
+                res.violation(name, "a generic call does not behave like its specialisation (%s; output line %d is %r, expected %r)" % (
+                    r.cls, first, got[first] if 0 <= first < len(got) else None, exp_[first] if 0 <= first < len(exp_) else None),
+                    {"program": src, "expected_stdout": want, "implementation": r.as_dict()})
+                break
     mouts = pipeline.farm(ddp, [(files, cfg, {}) for _, files, _ in MODULE_PROGRAMS])
     for (name, files, want), r in zip(MODULE_PROGRAMS, mouts):
         res.evaluations += 1
@@ -230,5 +286,6 @@ def check(res, tier):
     res.rule = ("UnifyGenericType on generated (argument, parameter) sequences incl. conflicting bindings, lists, generic Kombinationen "
                 "with type parameters and concrete types in argument position; random programs with functions made generic in a "
                 "parameter type (same file / other module) against their textual specialisation and the evaluator; fixed programs for "
-                "identity of instantiations and ill-typed bindings")
+                "identity of instantiations and ill-typed bindings; one generic function instantiated with 14 types (primitives, lists, "
+                "type definitions of the same base, an alias, Kombinationen) in several orders in one module")
     res.assumptions += ["generic Kombinationen are covered by fixed programs and by the unify correspondence, not by the random generator"]
